@@ -487,10 +487,19 @@ pub fn check_c18(op: &Op, cfg: &SlotCfg, out: &Outcome, thread: usize, opi: usiz
                     let k = (0..out.stub.seen.len()).find(|&k| !used[k] && out.stub.seen[k] == (xb, yb) && stub::enc(xb, yb, 0, k as u32).to_bits() == got0);
                     match k {
                         Some(k) if (0..lanes).all(|l| out.bits[i * lanes + l] == stub::enc(xb, yb, l, k as u32).to_bits()) => used[k] = true,
+                        // served by a callback on a worker thread of the library (no reproducible
+                        // callback index in the value; injectivity cannot be decided for these)
+                        _ if out.stub.foreign_attributed > 0 && (0..lanes).all(|l| out.bits[i * lanes + l] == stub::enc(xb, yb, l, stub::FOREIGN_CALL).to_bits()) => {}
                         _ => {
                             // explain: whose value is it?
                             let mut whose = None;
                             'f: for (j, &(a, b)) in query.iter().enumerate() {
+                                for m in 0..lanes {
+                                    if out.stub.foreign_attributed > 0 && stub::enc(a, b, m, stub::FOREIGN_CALL).to_bits() == got0 {
+                                        whose = Some((j, m, usize::MAX));
+                                        break 'f;
+                                    }
+                                }
                                 for k2 in 0..out.stub.seen.len() {
                                     for m in 0..lanes {
                                         if stub::enc(a, b, m, k2 as u32).to_bits() == got0 {
@@ -506,6 +515,7 @@ pub fn check_c18(op: &Op, cfg: &SlotCfg, out: &Outcome, thread: usize, opi: usiz
                                     "result element (query #{i}) does not hold what a callback that received this query element wrote into its own target ({})",
                                     match whose {
                                         Some((j, m, k2)) if j == i || query[j] == query[i] => format!("it holds the values callback {k2} wrote, which already serve another result element with the same query value: the strategy was never given this element's target"),
+                                        Some((j, m, k2)) if k2 == usize::MAX => format!("it holds the value a callback on a worker thread of the library wrote for query #{j}, lane {m}"),
                                         Some((j, m, k2)) => format!("it holds the value callback {k2} wrote for query #{j}, lane {m}"),
                                         None if got0 == poison_bits() => "buffer element never written".to_string(),
                                         None => format!("holds {:?}", f64::from_bits(got0)),
@@ -673,6 +683,9 @@ fn probe_counters(spec: &RunSpec, op: &Op, out: &Outcome, c: &mut Counters) {
     if out.stub.foreign_callbacks {
         c.add("reach.callbacks_on_foreign_threads", 1);
     }
+    if out.stub.foreign_attributed > 0 {
+        c.add("reach.callbacks_on_library_worker_threads_attributed", out.stub.foreign_attributed as u64);
+    }
     if out.stub.elem_yields > 0 {
         c.add("reach.call_suspended_between_element_operations", 1);
     }
@@ -700,6 +713,9 @@ impl Drop for LeaveGuard<'_> {
 
 /// execute `spec` under engine A and check `prop`
 pub fn run_spec(spec: &RunSpec, prop: Prop, opts: &RunOpts) -> RunResult {
+    // engine A: one client thread runs at a time, so callbacks on library worker threads can be
+    // attributed to the running operation (see `stub::CURRENT_OP`)
+    stub::FOREIGN_ATTRIB.store(true, std::sync::atomic::Ordering::Relaxed);
     let mut res = RunResult {
         violations: vec![],
         events: vec![],
